@@ -398,6 +398,53 @@ def stage_symbols_model(ctx: Ctx, progs):
     ctx.correspondence('models/Symbols.v classify (events re-derived from the scope walk) == the seven dictionaries of scope_symbols(full=True), keys in insertion order', len(terms), [meta[i] for i in failed])
 
 
+def stage_scope_variants(ctx: Ctx, progs):
+    """(a) the scope walk yields its nodes in the order of the plain walk (forwards, and backwards with back=True) - it only leaves nodes out; (b) each dictionary of
+    scope_symbols(full=True) is the same whichever of the optional ones (`local`, `free`) are asked for as well"""
+    import fst
+    extra = ['r = [i for a in b if c if d for e in g if h if j]\n', 's = {k: v for k in b if c if d if e}\n', 't = [i := a for a in b if (j := i)]\n',
+             'u = list((w := x) for x in y if x if w for z in x if z if w)\n', 'def f(a=[q for q in r if s if t]):\n    return {a for a in a if a if f}\n']
+    for src in extra + SCOPE_PROGS + list(progs[:ctx.scale(6, 40)]):
+        try:
+            root = fst.FST(src, 'exec')
+        except Exception:
+            continue
+        scopes = [f for f in root.walk(True) if isinstance(f.a, (ast.Module, ast.ClassDef, ast.Lambda) + FUNCS + COMPS)]
+        for sc in scopes:
+            for back in (False, True):
+                pos = {id(n): i for i, n in enumerate(sc.walk(True, back=back))}
+                try:
+                    got = [id(n) for n in sc.walk(True, scope=True, back=back)]
+                except Exception as e:
+                    ctx.violation(f'scope-walk-raise|{type(e).__name__}', 'the scope walk raised', {'src': src, 'scope': repr(sc), 'back': back, 'error': repr(e)[:200]})
+                    continue
+                ctx.tick(('scope-order', src, root.child_path(sc, True), back), 'scope:order')
+                idx = [pos.get(k) for k in got]
+                if None in idx or idx != sorted(idx) or len(set(idx)) != len(idx):
+                    seq = [n.src[:20] for n in sc.walk(True, scope=True, back=back) if isinstance(n.a, ast.Name)]
+                    ctx.violation(f'scope-walk-order|{type(sc.a).__name__}|back={back}', 'the scope walk does not yield its nodes in the order of the plain walk',
+                                  {'src': src, 'scope': repr(sc), 'back': back, 'names_in_scope_walk_order': seq[:20]})
+            try:
+                full = sc.scope_symbols(full=True)
+            except Exception as e:
+                continue
+            for kw in ({'free': False}, {'local': False}, {'free': False, 'local': False}):
+                try:
+                    part = sc.scope_symbols(full=True, **kw)
+                except Exception as e:
+                    ctx.violation(f'scope-symbols-raise|{type(e).__name__}', 'scope_symbols() raised', {'src': src, 'scope': repr(sc), 'kwargs': kw, 'error': repr(e)[:200]})
+                    continue
+                ctx.tick(('scope-variants', src, root.child_path(sc, True), repr(kw)), 'symbols:variants')
+                for k_, d_ in part.items():
+                    a_ = {n: [id(x) for x in v] for n, v in d_.items()}
+                    b_ = {n: [id(x) for x in v] for n, v in full.get(k_, {}).items()}
+                    if a_ != b_ or list(a_) != list(b_):
+                        ctx.violation(f'symbols-variant|{k_}|{sorted(kw)}', f'the {k_!r} dictionary of scope_symbols(full=True) depends on which optional dictionaries are requested',
+                                      {'src': src, 'scope': repr(sc), 'kwargs': kw, 'with_all': {n: [x.src for x in v] for n, v in full.get(k_, {}).items()},
+                                       'got': {n: [x.src + ':' + type(getattr(x.a, "ctx", None)).__name__ for x in v] for n, v in d_.items()}})
+                        break
+
+
 def run(ctx: Ctx):
     ctx.rule = ('hand-written scope programs (nested functions/classes/lambdas/comprehensions, global/nonlocal, imports, augmented assignment, exception and pattern-capture names, '
                 'annotations, defaults, decorators, walrus in nested comprehensions) + corpus + generated programs. (1) every scope root: node set of walk(True, scope=True, self_=False) '
@@ -411,6 +458,7 @@ def run(ctx: Ctx):
     run_guarded(ctx, stage_scope_walk, progs)
     run_guarded(ctx, stage_symbols, progs)
     run_guarded(ctx, stage_symbols_model, progs)
+    run_guarded(ctx, stage_scope_variants, progs)
 
 
 def replay(path):
